@@ -142,14 +142,14 @@ Proof. destruct tr; vm_compute; reflexivity. Qed.
 (* ---- write, cut into its stages ----------------------------------------------------------------- *)
 Section WriteLevel.
 Variable fmtv : list N -> list N -> list N.
-Variable fmt_diff : list N -> list N -> list N.
+Variable fmt_diff : list N -> list N -> list N -> list N.
 Variable fmt_pi : list N -> list N.
 Variable fstr : list N -> list N.
 Variable fzero : list N -> bool.
 Variable numeq : list N -> list N -> bool.
 
 Notation write := (write fmtv fmt_diff fmt_pi fstr fzero numeq).
-Notation refresh := (refresh_sss fmtv fmt_diff numeq).
+Notation refresh := (refresh_sss fmtv fmt_diff numeq).   (* applied to the index format *)
 Notation norm := (norm_las fzero).
 
 (* 1. the WRAP item *)
@@ -290,7 +290,7 @@ Lemma write_eq0 o m :
       match vers_of o (s_transforms (l_version (m_las m))) (l_version l1) with
       | None => WErr WKeyError
       | Some v =>
-          match refresh (mkmlas l1 (m_index_initial m)) with
+          match refresh (col_fmt o 0%nat) (mkmlas l1 (m_index_initial m)) with
           | None => WErr WKeyError
           | Some l2 => write_tail0 o wrap v (vsw_of v (s_transforms (l_version (m_las m))) (l_version l1)) (norm l2) (m_index_initial m)
           end
@@ -317,7 +317,7 @@ Lemma write_eq o m :
       match vers_of o (s_transforms (l_version (m_las m))) (l_version l1) with
       | None => WErr WKeyError
       | Some v =>
-          match refresh (mkmlas l1 (m_index_initial m)) with
+          match refresh (col_fmt o 0%nat) (mkmlas l1 (m_index_initial m)) with
           | None => WErr WKeyError
           | Some l2 => write_tail o wrap v (vsw_of v (s_transforms (l_version (m_las m))) (l_version l1)) (norm l2) (m_index_initial m)
           end
@@ -359,14 +359,14 @@ Proof.
     intro H. injection H as <- <-. repeat split.
 Qed.
 
-Lemma refresh_fields m l2 :
-  refresh m = Some l2 ->
+Lemma refresh_fields f m l2 :
+  refresh f m = Some l2 ->
   l_version l2 = l_version (m_las m) /\ l_params l2 = l_params (m_las m) /\
   l_other l2 = l_other (m_las m) /\ l_custom l2 = l_custom (m_las m) /\ l_data l2 = l_data (m_las m) /\
   s_transforms (l_well l2) = s_transforms (l_well (m_las m)) /\
   s_transforms (l_curves l2) = s_transforms (l_curves (m_las m)).
 Proof.
-  intro H. destruct (refresh_inv _ _ _ _ _ H) as (need & nS & nP & nE & _ & _ & _ & _ & ->).
+  intro H. destruct (refresh_inv _ _ _ _ _ _ H) as (need & nS & nP & nE & _ & _ & _ & _ & ->).
   repeat split.
 Qed.
 
@@ -375,7 +375,7 @@ Lemma write_ok_inv o m text m' :
   exists wrap l1 v l2,
     wrap_step_of o (m_las m) = Some (wrap, l1) /\
     vers_of o (s_transforms (l_version (m_las m))) (l_version l1) = Some v /\
-    refresh (mkmlas l1 (m_index_initial m)) = Some l2 /\
+    refresh (col_fmt o 0%nat) (mkmlas l1 (m_index_initial m)) = Some l2 /\
     m' = mkmlas (norm l2) (m_index_initial m) /\
     render_text o wrap v (vsw_of v (s_transforms (l_version (m_las m))) (l_version l1)) (norm l2) = Some text.
 Proof.
@@ -396,7 +396,7 @@ Theorem write_data_frame o m text m' :
 Proof.
   intro H. destruct (write_ok_inv _ _ _ _ H) as (wrap & l1 & v & l2 & H1 & _ & H3 & -> & _).
   destruct (wrap_step_fields _ _ _ _ H1) as (_ & _ & _ & F4 & F5 & F6 & _).
-  destruct (refresh_fields _ _ H3) as (_ & _ & G3 & G4 & G5 & _).
+  destruct (refresh_fields _ _ _ H3) as (_ & _ & G3 & G4 & G5 & _).
   cbn [m_las m_index_initial] in *.
   change (l_data (norm l2)) with (l_data l2). change (l_other (norm l2)) with (l_other l2).
   change (l_custom (norm l2)) with (l_custom l2).
@@ -411,9 +411,9 @@ Theorem write_curves_frame o m text m' :
 Proof.
   intro H. destruct (write_ok_inv _ _ _ _ H) as (wrap & l1 & v & l2 & H1 & _ & H3 & -> & _).
   destruct (wrap_step_fields _ _ _ _ H1) as (_ & F2 & _).
-  destruct (refresh_inv _ _ _ _ _ H3) as (need & nS & nP & nE & _ & _ & _ & _ & ->).
+  destruct (refresh_inv _ _ _ _ _ _ H3) as (need & nS & nP & nE & _ & _ & _ & _ & ->).
   cbn [m_las m_index_initial] in *.
-  change (l_curves (norm (refresh_result fmtv fmt_diff l1 need nS nP nE)))
+  change (l_curves (norm (refresh_result fmtv fmt_diff (col_fmt o 0%nat) l1 need nS nP nE)))
     with (mksect (curves_aligned l1 (unit_of l1 nS)) (s_transforms (l_curves l1))).
   cbn [s_items s_transforms].
   destruct (curves_aligned_frame l1 (unit_of l1 nS)) as [A B].
@@ -426,7 +426,7 @@ Theorem write_params_frame o m text m' :
 Proof.
   intro H. destruct (write_ok_inv _ _ _ _ H) as (wrap & l1 & v & l2 & H1 & _ & H3 & -> & _).
   destruct (wrap_step_fields _ _ _ _ H1) as (_ & _ & F3 & _).
-  destruct (refresh_fields _ _ H3) as (_ & G2 & _).
+  destruct (refresh_fields _ _ _ H3) as (_ & G2 & _).
   cbn [m_las m_index_initial] in *.
   change (l_params (norm l2)) with (map_section (stdf fzero) (l_params l2)).
   rewrite G2, F3. reflexivity.
@@ -440,7 +440,7 @@ Theorem write_well_frame o m text m' :
 Proof.
   intro H. destruct (write_ok_inv _ _ _ _ H) as (wrap & l1 & v & l2 & H1 & _ & H3 & -> & _).
   destruct (wrap_step_fields _ _ _ _ H1) as (F1 & _).
-  destruct (refresh_inv _ _ _ _ _ H3) as (need & nS & nP & nE & _ & HS & HP & HE & ->).
+  destruct (refresh_inv _ _ _ _ _ _ H3) as (need & nS & nP & nE & _ & HS & HP & HE & ->).
   cbn [m_las m_index_initial] in *.
   split.
   - rewrite <- F1. apply refresh_norm_well_frame; assumption.
@@ -458,7 +458,7 @@ Theorem write_version_frame o m text m' :
   end.
 Proof.
   intro H. destruct (write_ok_inv _ _ _ _ H) as (wrap & l1 & v & l2 & H1 & _ & H3 & -> & _).
-  destruct (refresh_fields _ _ H3) as (G1 & _).
+  destruct (refresh_fields _ _ _ H3) as (G1 & _).
   cbn [m_las m_index_initial] in *.
   change (l_version (norm l2)) with (l_version l2). rewrite G1.
   destruct (wo_wrap o) as [b|] eqn:E.
@@ -505,17 +505,27 @@ Proof.
   - rewrite F. split; reflexivity.
 Qed.
 
-(* the resulting object depends on no option other than wrap= *)
+(* the resulting object depends on no option other than wrap= and the format of the index
+   column (column_fmt[0] or fmt), with which STRT/STOP/STEP are printed *)
 Theorem write_state_wrap_only o1 o2 m t1 t2 m1 m2 :
-  wo_wrap o1 = wo_wrap o2 ->
+  wo_wrap o1 = wo_wrap o2 -> col_fmt o1 0%nat = col_fmt o2 0%nat ->
   write o1 m = WOk t1 m1 -> write o2 m = WOk t2 m2 -> m1 = m2.
 Proof.
-  intros E H1 H2.
+  intros E Ef H1 H2.
   destruct (write_ok_inv _ _ _ _ H1) as (w1 & l1 & v1 & l2 & A1 & _ & A3 & -> & _).
   destruct (write_ok_inv _ _ _ _ H2) as (w2 & l1' & v2 & l2' & B1 & _ & B3 & -> & _).
   assert (X : wrap_step_of o1 (m_las m) = wrap_step_of o2 (m_las m)) by (unfold wrap_step_of; rewrite E; reflexivity).
-  rewrite X, B1 in A1. injection A1 as _ <-. rewrite B3 in A3. injection A3 as <-. reflexivity.
+  rewrite X, B1 in A1. injection A1 as _ <-. rewrite Ef, B3 in A3. injection A3 as <-. reflexivity.
 Qed.
+
+(* version= never reaches memory *)
+Definition set_wo_version (o : wopts) (ver : option wver) : wopts :=
+  mkwopts ver (wo_wrap o) (wo_fmt o) (wo_column_fmt o) (wo_len_numeric_field o) (wo_lhs_spacer o)
+          (wo_spacer o) (wo_data_width o) (wo_header_width o) (wo_data_section_header o) (wo_mnemonics_header o).
+
+Theorem write_version_in_memory o ver m t1 t2 m1 m2 :
+  write o m = WOk t1 m1 -> write (set_wo_version o ver) m = WOk t2 m2 -> m1 = m2.
+Proof. apply write_state_wrap_only; reflexivity. Qed.
 
 (* ---- C16: the text is a function of the resulting state and the options ---------------------------- *)
 Definition render (o : wopts) (l3 : las) : option (list N) :=
@@ -530,7 +540,7 @@ Theorem write_text_function_of_state o m text m' :
 Proof.
   intro H. destruct (write_ok_inv _ _ _ _ H) as (wrap & l1 & v & l2 & H1 & H2 & H3 & -> & H5).
   destruct (wrap_step_fields _ _ _ _ H1) as (_ & _ & _ & _ & _ & _ & F7 & ->).
-  destruct (refresh_fields _ _ H3) as (G1 & _).
+  destruct (refresh_fields _ _ _ H3) as (G1 & _).
   cbn [m_las m_index_initial] in *.
   unfold render. change (l_version (norm l2)) with (l_version l2). rewrite G1, F7, H2. exact H5.
 Qed.
@@ -546,7 +556,7 @@ Theorem write_idempotent o m text m' :
 Proof.
   intros Hw H. destruct (write_ok_inv _ _ _ _ H) as (wrap & l1 & v & l2 & H1 & H2 & H3 & -> & H5).
   destruct (wrap_step_fields _ _ _ _ H1) as (_ & _ & _ & _ & _ & _ & F7 & Ewrap).
-  destruct (refresh_fields _ _ H3) as (G1 & _).
+  destruct (refresh_fields _ _ _ H3) as (G1 & _).
   cbn [m_las m_index_initial] in *.
   assert (A : l_version (norm l2) = l_version l1) by exact G1.
   assert (C : wrap_step_of o (norm l2) = Some (wrap, norm l2)).
@@ -561,7 +571,7 @@ Proof.
       rewrite A, EF. reflexivity. }
   rewrite write_eq. cbn [m_las m_index_initial].
   rewrite C, A, F7, H2.
-  destruct (refresh_std_idem fmtv fmt_diff numeq fzero _ _ H3) as (l2' & R1 & R2).
+  destruct (refresh_std_idem fmtv fmt_diff numeq (col_fmt o 0%nat) fzero _ _ H3) as (l2' & R1 & R2).
   cbn [m_las m_index_initial] in R1. rewrite R1, R2.
   unfold write_tail. rewrite H5. reflexivity.
 Qed.
@@ -644,26 +654,26 @@ Theorem write_units_aligned o m text m' :
 Proof.
   intro H. destruct (write_ok_inv _ _ _ _ H) as (wrap & l1 & v & l2 & H1 & _ & H3 & -> & _).
   destruct (wrap_step_fields _ _ _ _ H1) as (F1 & F2 & _).
-  destruct (refresh_inv _ _ _ _ _ H3) as (need & nS & nP & nE & _ & HS & HP & HE & ->).
+  destruct (refresh_inv _ _ _ _ _ _ H3) as (need & nS & nP & nE & _ & HS & HP & HE & ->).
   cbn [m_las m_index_initial] in *. cbv zeta.
   rewrite <- (aligned_unit_ext l1 (m_las m) F1 F2), <- F1, <- (unit_of_aligned l1 nS HS).
-  destruct (after_units fmtv fmt_diff (standardize fzero) l1 need nS nP nE HS HP HE)
+  destruct (after_units fmtv fmt_diff (col_fmt o 0%nat) (standardize fzero) l1 need nS nP nE HS HP HE)
     as (a & b & c & A1 & A2 & B1 & B2 & C1 & C2).
   exists a, b, c. repeat split; try assumption.
   intros c0 rest.
-  change (s_items (l_curves (norm (refresh_result fmtv fmt_diff l1 need nS nP nE))))
+  change (s_items (l_curves (norm (refresh_result fmtv fmt_diff (col_fmt o 0%nat) l1 need nS nP nE))))
     with (curves_aligned l1 (unit_of l1 nS)).
   unfold curves_aligned. destruct (s_items (l_curves l1)); [discriminate|].
   intro E. injection E as <- _. reflexivity.
 Qed.
 
-Lemma step_of_two a b rest z rr :
+Lemma step_of_two f a b rest z rr :
   rev (CNum a :: CNum b :: rest) = CNum z :: rr ->
-  step_of fmtv fmt_diff (CNum a :: CNum b :: rest) =
-  if str_eqb (fmtv f5 a) (fmtv f5 z) then VNone else VStr (fmt_diff b a).
+  step_of fmtv fmt_diff f (CNum a :: CNum b :: rest) =
+  if str_eqb (fmtv f a) (fmtv f z) then VNone else VStr (fmt_diff f b a).
 Proof. intro H. unfold step_of, strt_of, stop_of. rewrite H. reflexivity. Qed.
 
-Lemma step_of_single c : step_of fmtv fmt_diff [c] = VNone.
+Lemma step_of_single f c : step_of fmtv fmt_diff f [c] = VNone.
 Proof. destruct c; reflexivity. Qed.
 
 Theorem write_truth o m text m' a rest z rr :
@@ -676,15 +686,15 @@ Theorem write_truth o m text m' a rest z rr :
     sect_find trw k_strt (s_items (l_well (m_las m'))) = Some s /\
     sect_find trw k_stop (s_items (l_well (m_las m'))) = Some p /\
     sect_find trw k_step (s_items (l_well (m_las m'))) = Some e /\
-    i_value s = standardize fzero (VStr (fmtv f5 a)) u /\
-    i_value p = standardize fzero (VStr (fmtv f5 z)) u /\
-    i_value e = standardize fzero (step_of fmtv fmt_diff (index_of (m_las m))) u /\
+    i_value s = standardize fzero (VStr (fmtv (col_fmt o 0%nat) a)) u /\
+    i_value p = standardize fzero (VStr (fmtv (col_fmt o 0%nat) z)) u /\
+    i_value e = standardize fzero (step_of fmtv fmt_diff (col_fmt o 0%nat) (index_of (m_las m))) u /\
     i_unit s = u /\ i_unit p = u /\ i_unit e = u.
 Proof.
   intros H Hneed Hfirst Hlast.
   destruct (write_ok_inv _ _ _ _ H) as (wrap & l1 & v & l2 & H1 & _ & H3 & -> & _).
   destruct (wrap_step_fields _ _ _ _ H1) as (F1 & F2 & _ & _ & _ & F6 & _).
-  destruct (refresh_inv _ _ _ _ _ H3) as (need & nS & nP & nE & Hn & HS & HP & HE & ->).
+  destruct (refresh_inv _ _ _ _ _ _ H3) as (need & nS & nP & nE & Hn & HS & HP & HE & ->).
   cbn [m_las m_index_initial] in *. cbv zeta.
   assert (need = true).
   { destruct m as [l0 ii]. cbn [m_las m_index_initial] in *.
@@ -692,9 +702,9 @@ Proof.
   subst need.
   assert (EI : index_of l1 = index_of (m_las m)) by (unfold index_of; rewrite F6; reflexivity).
   rewrite <- (aligned_unit_ext l1 (m_las m) F1 F2), <- F1, <- (unit_of_aligned l1 nS HS).
-  destruct (after_find_strt fmtv fmt_diff (standardize fzero) l1 true nS nP nE HS HP HE eq_refl) as (itS & _ & AS).
-  destruct (after_find_stop fmtv fmt_diff (standardize fzero) l1 true nS nP nE HS HP HE eq_refl) as (itP & _ & AP).
-  destruct (after_find_step fmtv fmt_diff (standardize fzero) l1 true nS nP nE HS HP HE eq_refl) as (itE & _ & AE).
+  destruct (after_find_strt fmtv fmt_diff (col_fmt o 0%nat) (standardize fzero) l1 true nS nP nE HS HP HE eq_refl) as (itS & _ & AS).
+  destruct (after_find_stop fmtv fmt_diff (col_fmt o 0%nat) (standardize fzero) l1 true nS nP nE HS HP HE eq_refl) as (itP & _ & AP).
+  destruct (after_find_step fmtv fmt_diff (col_fmt o 0%nat) (standardize fzero) l1 true nS nP nE HS HP HE eq_refl) as (itE & _ & AE).
   eexists _, _, _. split; [exact AS|]. split; [exact AP|]. split; [exact AE|].
   rewrite EI. cbn [hf su sv set_value set_unit i_value i_unit].
   unfold strt_of, stop_of. rewrite Hlast, Hfirst. repeat split.
@@ -702,33 +712,33 @@ Qed.
 
 (* the same with the values spelled out, for formats that never print an empty text *)
 Theorem write_truth_texts o m text m' a rest z rr :
-  (forall t, fmtv f5 t <> []) ->
+  (forall t, fmtv (col_fmt o 0%nat) t <> []) ->
   write o m = WOk text m' ->
   need_of numeq m = Some true ->
   index_of (m_las m) = CNum a :: rest -> rev (index_of (m_las m)) = CNum z :: rr ->
   let trw := s_transforms (l_well (m_las m)) in
   exists s p e,
-    sect_find trw k_strt (s_items (l_well (m_las m'))) = Some s /\ i_value s = VStr (fmtv f5 a) /\
-    sect_find trw k_stop (s_items (l_well (m_las m'))) = Some p /\ i_value p = VStr (fmtv f5 z) /\
+    sect_find trw k_strt (s_items (l_well (m_las m'))) = Some s /\ i_value s = VStr (fmtv (col_fmt o 0%nat) a) /\
+    sect_find trw k_stop (s_items (l_well (m_las m'))) = Some p /\ i_value p = VStr (fmtv (col_fmt o 0%nat) z) /\
     sect_find trw k_step (s_items (l_well (m_las m'))) = Some e /\
-    (forall b rest', rest = CNum b :: rest' -> str_eqb (fmtv f5 a) (fmtv f5 z) = false -> fmt_diff b a <> [] ->
-       i_value e = VStr (fmt_diff b a)) /\
-    (rest = [] \/ (exists b rest', rest = CNum b :: rest' /\ str_eqb (fmtv f5 a) (fmtv f5 z) = true) ->
+    (forall b rest', rest = CNum b :: rest' -> str_eqb (fmtv (col_fmt o 0%nat) a) (fmtv (col_fmt o 0%nat) z) = false -> fmt_diff (col_fmt o 0%nat) b a <> [] ->
+       i_value e = VStr (fmt_diff (col_fmt o 0%nat) b a)) /\
+    (rest = [] \/ (exists b rest', rest = CNum b :: rest' /\ str_eqb (fmtv (col_fmt o 0%nat) a) (fmtv (col_fmt o 0%nat) z) = true) ->
        i_value e = standardize fzero VNone (aligned_unit (m_las m))).
 Proof.
   intros Hne H Hneed Hfirst Hlast.
   destruct (write_truth o m text m' a rest z rr H Hneed Hfirst Hlast) as (s & p & e & A & B & C & VS & VP & VE & _).
   exists s, p, e. split; [exact A|]. split.
-  { rewrite VS. pose proof (Hne a) as X. destruct (fmtv f5 a); [congruence|apply standardize_text]. }
+  { rewrite VS. pose proof (Hne a) as X. destruct (fmtv (col_fmt o 0%nat) a); [congruence|apply standardize_text]. }
   split; [exact B|]. split.
-  { rewrite VP. pose proof (Hne z) as X. destruct (fmtv f5 z); [congruence|apply standardize_text]. }
+  { rewrite VP. pose proof (Hne z) as X. destruct (fmtv (col_fmt o 0%nat) z); [congruence|apply standardize_text]. }
   split; [exact C|]. split.
   - intros b rest' -> Hd Hnd. rewrite VE, Hfirst.
-    rewrite Hfirst in Hlast. rewrite (step_of_two a b rest' z rr Hlast), Hd.
-    destruct (fmt_diff b a); [congruence|apply standardize_text].
+    rewrite Hfirst in Hlast. rewrite (step_of_two _ a b rest' z rr Hlast), Hd.
+    destruct (fmt_diff (col_fmt o 0%nat) b a); [congruence|apply standardize_text].
   - intros [->|(b & rest' & -> & Heq)]; rewrite VE, Hfirst.
     + rewrite step_of_single. reflexivity.
-    + rewrite Hfirst in Hlast. rewrite (step_of_two a b rest' z rr Hlast), Heq. reflexivity.
+    + rewrite Hfirst in Hlast. rewrite (step_of_two _ a b rest' z rr Hlast), Heq. reflexivity.
 Qed.
 
 End WriteLevel.
